@@ -144,6 +144,13 @@ var (
 	send      = seqx.Final{Kind: "Send"}
 )
 
+type lineCollector struct{ lines *[][]byte }
+
+func (l lineCollector) Write(p []byte) (int, error) {
+	*l.lines = append(*l.lines, append([]byte{}, p...))
+	return len(p), nil
+}
+
 func pickSites(all []seqx.Site, names ...string) []seqx.Site {
 	var out []seqx.Site
 	for _, s := range all {
@@ -161,7 +168,7 @@ func runC01() {
 	r.Rule = "one evaluation = one logging program (global-setting deviations x logger derivation x window of field operations placed at a site x finaliser) executed on the real zerolog; every line handed to the writer is checked by an independent strict RFC 8259 parser (one object, valid UTF-8, no raw control byte, exactly one trailing newline); states = distinct output lines; distinct = distinct output lines; non-trivial = the program contains a container, an empty/nil value or a string needing escapes"
 	r.Assumptions = []string{"values from the class alphabet (one representative per emptiness / nil-ness / escaping / width class), not all values", "windows of <= 2 consecutive operations over the full alphabet and <= 3 with a structural middle symbol (quick) / <= 3 full (thorough) at every site; longer chains with <= 1 (quick) / 2 (thorough) deviating symbols", "excluded as the statement allows: invalid RawJSON / json.RawMessage fragments, marshal functions returning invalid JSON, time layouts containing quote, backslash or control characters"}
 	if tier == "quick" {
-		r.Deadline = time.Now().Add(150 * time.Second)
+		r.Deadline = time.Now().Add(240 * time.Second)
 	} else {
 		r.Deadline = time.Now().Add(25 * time.Minute)
 	}
@@ -203,6 +210,44 @@ func runC01() {
 			en.chainAtSites([]seqx.Field{seqx.Rekey(a, 0)}, nil, []seqx.Entry{entryInfo, entryLog}, []seqx.Final{msgM, msgEmpty, msgNasty, msgFunc, send}, all)
 		}
 		en.chainAtSites(nil, nil, []seqx.Entry{entryInfo, entryLog}, []seqx.Final{msgM, msgEmpty, send}, all)
+		// (a') the Print family and a direct Logger.Write, on loggers with every single-symbol context
+		for _, txt := range append(append([]string{}, seqx.TextClasses...), "two\nlines\n", "trailing\n") {
+			for ai := -1; ai < len(A); ai++ {
+				en.idx++
+				if en.idx%int64(n) != int64(shard) && onlyIndex == 0 {
+					continue
+				}
+				if onlyIndex != 0 && en.idx != onlyIndex {
+					continue
+				}
+				var lines [][]byte
+				w := lineCollector{&lines}
+				lg := zerolog.New(w)
+				desc := "New(w)"
+				if ai >= 0 {
+					if !seqx.HasContextForm(A[ai]) {
+						continue
+					}
+					lg = seqx.ApplyContext(lg.With(), seqx.Rekey(A[ai], 0)).Logger()
+					desc += fmt.Sprintf(".With().%s.Logger()", seqx.Rekey(A[ai], 0))
+				}
+				lg.Print(txt)
+				lg.Printf("%s|%d", txt, 7)
+				lg.Println(txt, txt)
+				lg.Write([]byte(txt))
+				curIndex = en.idx
+				if len(lines) != 4 {
+					r.Violation("", "print/writes", fmt.Sprintf("%s: Print, Printf, Println, Write(%q) produced %d writes", desc, txt, len(lines)), desc)
+				}
+				for _, line := range lines {
+					r.Eval(string(line), true)
+					if _, err := checkLine(line); err != nil {
+						_, key := classifyC01(seqx.Program{}, line, err)
+						r.Violation("", "print/"+key, fmt.Sprintf("not one well-formed JSON object on one line: %v\n  output : %q\n  program: %s ; Print/Printf/Println/Write(%q)", err, line, desc, txt), desc)
+					}
+				}
+			}
+		}
 		// (b) all windows of two symbols at every site
 		for _, a := range A {
 			for _, b := range A {
@@ -252,7 +297,8 @@ func runC01() {
 		withStack := func(chain []seqx.Field) []seqx.Field { return append([]seqx.Field{{M: "Stack"}}, chain...) }
 		for si := 0; si < nset; si++ {
 			for _, a := range A {
-				en.chainAtSites([]seqx.Field{seqx.Rekey(a, 0)}, []int{si}, []seqx.Entry{entryInfo, entryLog}, []seqx.Final{msgM, send}, all)
+				en.chainAtSites([]seqx.Field{seqx.Rekey(a, 0)}, []int{si}, entries, finals, all)
+				en.chainAtSites([]seqx.Field{seqx.Rekey(a, 0)}, []int{si}, []seqx.Entry{entryLog}, []seqx.Final{send}, core)
 				en.chainAtSites(withStack([]seqx.Field{seqx.Rekey(a, 0)}), []int{si}, entries, finals, core)
 			}
 			for _, a := range S {
